@@ -4,6 +4,7 @@
    generated export).  adapt_course is adapt_course_for_invisible_participants. *)
 From Coq Require Import List ZArith Lia Bool Arith.
 Require Import HP1 Cao1 Cao3 Json Cde CdeThms CdeSpec CdeRefine CdeIgnore.
+Require CdeIds WriteDoc CdeE2E.
 Import ListNotations.
 
 (* with pre = number of ignored pre-assigned attendees: any number of new attendees within the ADAPTED limits keeps the course within
@@ -50,6 +51,24 @@ Theorem C11_reserved_places : forall ign_a rviews ci v,
   rc_hidden c = map rv_name mine /\ (rc_fixed c = true <-> mine <> []).
 Proof. exact reserved_places. Qed.
 
+(* END TO END (document level): for every accepted export with canonical keys, every option set (in particular --ignore-assigned and
+   --ignore-cancelled), every hard-feasible assignment of the problem and the writer's whole document: the import side finds only registrations
+   that are participants of the problem (an ignored registration is none: C11_ignored_not_participant / C11_ignored_id_absent) and only courses of
+   the problem (an ignored cancelled course is none: C11_problem_courses), and every course with reserved places -- a course in which an ignored
+   registration sits or which it instructs is fixed: C11_fixed -- is marked as taking place *)
+Theorem C11_end_to_end : forall data track ign_c ign_a ff of ps cs amb K a rooms sm ts,
+  read_fields data track ign_c ign_a ff of = ROk (ps, cs, amb) -> CdeIds.keys_canonical data = true ->
+  HardOK_K (map to_course cs) (map to_part ps) K a ->
+  (forall c, K c = true -> c < nc (map to_course cs) /\ c_fixed (crs (map to_course cs) c) = false) ->
+  match rooms with Some (_, l) => List.length l = List.length cs | None => True end ->
+  exists im,
+    WriteDoc.import_of_doc (ra_track amb) (WriteDoc.write_doc (ra_event amb) (ra_track amb) (write_regs a ps cs) (write_courses a cs) rooms sm ts) = Some im /\
+    (forall rid cid, In (rid, cid) (WriteDoc.im_regs im) -> In rid (map rp_dbid ps)) /\
+    (forall cid flag fld, In (cid, flag, fld) (WriteDoc.im_courses im) -> In cid (map rc_dbid cs)) /\
+    (forall c, c < List.length cs -> rc_fixed (nth c cs dflt_c) = true -> exists fld, In (rc_dbid (nth c cs dflt_c), true, fld) (WriteDoc.im_courses im)).
+Proof. exact CdeE2E.export_to_import_c11. Qed.
+
+Check C11_end_to_end.
 Check C11_reserve. Check C11_fixed. Check C11_fixed_active. Check C11_ignored_not_participant. Check C11_ignored_id_absent.
 Check C11_problem_courses. Check C11_ignored_course_lookup. Check C11_choices_in_problem. Check C11_reserved_places.
 Print Assumptions C11_reserve.
@@ -61,3 +80,4 @@ Print Assumptions C11_problem_courses.
 Print Assumptions C11_ignored_course_lookup.
 Print Assumptions C11_choices_in_problem.
 Print Assumptions C11_reserved_places.
+Print Assumptions C11_end_to_end.
